@@ -416,6 +416,13 @@ fn record_classes(ctx: &Ctx, spec: &Spec, vars: &[std::collections::BTreeMap<Str
     }
 }
 
+/// The SUT's reason for a rejection, without the quoted form (histogram only).
+fn error_kind(m: &str) -> String {
+    let m = m.split(" in ").next().unwrap_or(m);
+    let m: String = m.chars().filter(|c| c.is_ascii_alphabetic() || *c == ' ' || *c == '(').take(60).collect();
+    m.trim().to_string()
+}
+
 /// `VERIF_SHOW=1 ./check --replay <file>` prints the case before running it (hang triage).
 fn show(ctx: &Ctx, def: &Sx, args: &Sx) {
     if ctx.strict && std::env::var_os("VERIF_SHOW").is_some() {
@@ -509,8 +516,9 @@ fn check_valid(ctx: &Ctx, kind: &str, journal_payload: Value, spec: &Spec, args:
             format!("expansion panicked: {} :: {} :: {}", p, def_canon, make_use("kw", args)),
             render(&def_canon, args, &ref_text, "<panic at use>"),
         ),
-        Sut::DefErr(_) => {
+        Sut::DefErr(m) => {
             ctx.extra_add("sut_rejected_definition", 1);
+            ctx.class(&format!("sut-rejected-definition:{}", error_kind(&m)));
             Outcome::Pass
         }
         Sut::DefOnly => Outcome::Pass,
